@@ -183,7 +183,7 @@ func init() {
 		// structured product: rcode ; rrtype ; value
 		rcodes := []string{"NOERROR", "noerror", "SERVFAIL", "NXDOMAIN", "REFUSED", "BADCODE", ""}
 		rrtypes := []string{"A", "AAAA", "CNAME", "MX", "PTR", "TXT", "HTTPS", "SVCB", "SRV", "NS", "none", "reserved", "XYZ", "", "a", "ptr", "https"}
-		vtoks := []string{"", "0", "10", "65535", "65536", "-1", "1.2.3.4", "::1", "::ffff:1.2.3.4", "example.org", "example.org.", ".", "a-", "-a", "alpn=h2", "k=v=w", "hello world", strings.Repeat("x", 64)}
+		vtoks := []string{"", "0", "10", "65535", "65536", "-1", "1.2.3.4", "::1", "::ffff:1.2.3.4", "example.org", "example.org.", ".", "a-", "-a", "alpn=h2", "k=v=w", "hello world", strings.Repeat("x", 64), "example.org..", "a..", ".."}
 		vn := 3
 		if c.Thorough() {
 			vn = 4
@@ -195,6 +195,9 @@ func init() {
 				parts = append(parts, vtoks[t])
 			}
 			vals = append(vals, strings.Join(parts, " "))
+			if len(parts) > 1 {
+				vals = append(vals, strings.Join(parts, ""))
+			}
 			return true
 		})
 		c.parallel(len(rcodes)*len(rrtypes), func(i int) {
